@@ -193,3 +193,32 @@ func init() {
 		}
 	})
 }
+
+// Output sinks (C02 reporters): fmt.Fprint*, encoding/json and encoding/xml encoders accept anything and report no
+// error. Contract: writing a value never panics; what is written is outside the model (in particular MarshalXML /
+// MarshalJSON methods are NOT called back — a harness that needs them calls them itself).
+func init() {
+	for _, k := range []string{"fmt.Fprintln", "fmt.Fprint", "fmt.Fprintf", "(*encoding/json.Encoder).Encode", "(*encoding/xml.Encoder).Encode", "(*encoding/xml.Encoder).EncodeToken"} {
+		atomTolerant[k] = true
+	}
+	extraIntrinsics = append(extraIntrinsics, func(e *Engine) {
+		nErr := func(e *Engine, st *State, cc *ssa.CallCommon, a []Value) Value {
+			return TupleVal{Vals: []Value{ConstBV(0, 64), IfaceVal{}}}
+		}
+		noErr := func(e *Engine, st *State, cc *ssa.CallCommon, a []Value) Value { return IfaceVal{} }
+		e.intr["fmt.Fprintln"], e.intr["fmt.Fprint"], e.intr["fmt.Fprintf"] = nErr, nErr, nErr
+		e.intr["encoding/json.NewEncoder"] = func(e *Engine, st *State, cc *ssa.CallCommon, a []Value) Value {
+			return PtrVal{Obj: st.alloc(StructVal{})}
+		}
+		e.intr["(*encoding/json.Encoder).SetIndent"] = func(e *Engine, st *State, cc *ssa.CallCommon, a []Value) Value { return nil }
+		e.intr["(*encoding/json.Encoder).Encode"] = noErr
+		e.intr["encoding/xml.NewEncoder"] = func(e *Engine, st *State, cc *ssa.CallCommon, a []Value) Value {
+			return PtrVal{Obj: st.alloc(StructVal{})}
+		}
+		e.intr["(*encoding/xml.Encoder).Encode"] = noErr
+		e.intr["(*encoding/xml.Encoder).EncodeToken"] = noErr
+		e.intr["strings.NewReplacer"] = func(e *Engine, st *State, cc *ssa.CallCommon, a []Value) Value {
+			return PtrVal{Obj: st.alloc(StructVal{})}
+		}
+	})
+}
